@@ -17,6 +17,7 @@ import (
 	"net/http"
 	"net/http/httptest"
 	"strings"
+	"sync"
 
 	c "github.com/buzzfeed/sso/internal/zz_verif/common"
 
@@ -459,11 +460,32 @@ func (w *world) longRuns(r *c.Rng, tier string, emit func(xcase)) {
 	}
 	n := func(base int) int { return scale*base + r.Intn(200) }
 	s1 := sess()
-	emit(w.longRun(r, runMarshal, n(2100), []value{s1}))
-	emit(w.longRun(r, runMarshal, n(3100), []value{s1, differ(s1), sess()}))
-	emit(w.longRun(r, runState, n(2100), []value{state(1)}))
-	emit(w.longRun(r, runState, n(2100), []value{state(1), state(2)}))
-	emit(w.longRun(r, runSave, n(2100), []value{s1}))
-	emit(w.longRun(r, runSave, n(2600), []value{s1, differ(s1)}))
-	emit(w.longRun(r, runShared, n(2100), []value{s1}))
+	type job struct {
+		kind, n int
+		vals    []value
+	}
+	jobs := []job{
+		{runMarshal, n(2100), []value{s1}},
+		{runMarshal, n(3100), []value{s1, differ(s1), sess()}},
+		{runState, n(2100), []value{state(1)}},
+		{runState, n(2100), []value{state(1), state(2)}},
+		{runSave, n(2100), []value{s1}},
+		{runSave, n(2600), []value{s1, differ(s1)}},
+		{runShared, n(2100), []value{s1}},
+	}
+	// the runs are independent (own cipher instance each, except the shared one): run them side by side,
+	// report them in the fixed order
+	out := make([]xcase, len(jobs))
+	var wg sync.WaitGroup
+	for i, j := range jobs {
+		wg.Add(1)
+		go func(i int, j job) {
+			defer wg.Done()
+			out[i] = w.longRun(r, j.kind, j.n, j.vals)
+		}(i, j)
+	}
+	wg.Wait()
+	for _, cs := range out {
+		emit(cs)
+	}
 }
